@@ -10,7 +10,8 @@
 EXTENDS Machine, Json, TLCExt, SequencesExt
 CONSTANTS MaxLen, MaxDepth, Fuel,
           Alphabet,     \* the item kinds bodies are built from
-          Names         \* the label names (two names give equal names in different scopes: `{ goto y; y: } { goto y; y: }`)
+          Names,        \* the label names (two names give equal names in different scopes: `{ goto y; y: } { goto y; y: }`)
+          Shape         \* "any", or "loop": the body starts with a block and contains a `loop` (terminating loops need 7+ items)
 
 I32(n) == [k |-> "lit", t |-> "i32", v |-> FromNat(n, 32)]
 N == [k |-> "var", x |-> "n"]
@@ -37,6 +38,7 @@ Prog(b) == [consts |-> <<>>,
                        res |-> [k |-> "lit", t |-> "u8", v |-> <<7>>]]>>]
 Grow(k, nm) ==
     /\ ~done /\ Len(body) < MaxLen
+    /\ (Shape = "loop" /\ Len(body) = 0) => k = "O"
     /\ (k \in ElseKinds) => last = "if"
     /\ (Len(kinds) > 0 /\ kinds[Len(kinds)] = "LP") => k = "C"
     /\ k = "LP" => Len(opens) > 0
@@ -54,6 +56,7 @@ ScansAgree(b) == \A i \in 1..Len(b) :
                     /\ (b[i].k \in Openers => EndOf(b, i) = CloseOf(b, i))
 Finish ==
     /\ ~done /\ opens = <<>> /\ (Len(kinds) > 0 => kinds[Len(kinds)] # "LP")
+    /\ (Shape = "loop" => \E i \in 1..Len(kinds) : kinds[i] = "LP")
     /\ done' = TRUE
     \* positions shift by one because of the prelude `var n`; the label rule is position independent
     /\ res' = IF RuleAccepts(body) THEN Run(Prog(body), Fuel) ELSE [status |-> "invalid"]
